@@ -107,6 +107,37 @@ func main() {
 			}
 		}
 	}
+	// one shard of the request exceeds the database's series limit while the other one does not: the failing branch
+	// must not take the other branch's stages (still to be submitted to the worker pools) with it - exactly one
+	// response, carrying the error. The stages run on free goroutines: every request is sent 12 times.
+	idx++
+	if f.Mine(idx) && noResponses < 2 {
+		metric := "cpulim"
+		for i, h := range []string{"a", "b", "c"} {
+			if err := b.Write(1, []vbox.Point{{Metric: metric, Tags: map[string]string{"host": h}, Field: "f1", Type: "sum", Value: float64(i + 1), Timestamp: base + 5000}}); err != nil {
+				vevid.OpFailed("write: %v", err)
+			}
+		}
+		if err := b.Write(2, []vbox.Point{{Metric: metric, Tags: map[string]string{"host": "d"}, Field: "f1", Type: "sum", Value: 8, Timestamp: base + 15000}}); err != nil {
+			vevid.OpFailed("write: %v", err)
+		}
+		lim := models.NewDefaultLimits()
+		lim.MaxSeriesPerQuery = 2
+		models.SetDatabaseLimits(b.DBName, lim)
+		for _, q := range []qdef{{"limit-by-host", "select f1 from " + metric + " group by host", ""}, {"limit-plain", "select f1 from " + metric, ""}} {
+			for _, sh := range []struct {
+				shards []int
+				expect string
+			}{{[]int{1}, "error"}, {[]int{2}, "ok"}, {[]int{1, 2}, "error"}, {[]int{2, 1}, "error"}} {
+				for rnd := 0; rnd < 12 && noResponses < 2; rnd++ {
+					idx++
+					c := lcase{Data: "memory, series limit 2, shard 1 holds 3 series, shard 2 holds 1", Query: q.name, SQL: q.sql, Shards: sh.shards, Expect: sh.expect}
+					runLeafCase(rep, b, c, tr, node, idx, horizon, quiet)
+				}
+			}
+		}
+		models.SetDatabaseLimits(b.DBName, models.NewDefaultLimits())
+	}
 	// a leaf whose metadata cannot be read: the table files of the tag value dictionary (family "tv" of the metadata
 	// store) are gone after a restart; a group-by query finds its series and fails when it collects the tag values of
 	// the groups - still exactly one response
